@@ -151,6 +151,12 @@ def gen_model(rng: random.Random, *, max_demes=6, time_scale=8, gen_times=(1, 2,
         ends = [None] + [t for t in grid if lo <= t < s_eff] + [lo]
         e = rng.choice(ends)
         e_eff = lo if e is None else e
+        if near and rng.random() < near:
+            # a bound within a relative 2^-40 of the demes' coexistence interval, but not on it
+            if rng.random() < 0.5 and hi != INF and hi * (1 - 2.0 ** -40) > e_eff:
+                s = s_eff = hi * (1 - 2.0 ** -40)
+            elif lo > 0 and lo * (1 + 2.0 ** -40) < s_eff:
+                e = e_eff = lo * (1 + 2.0 ** -40)
         return s, e, s_eff, e_eff
 
     if n >= 2:
